@@ -106,6 +106,18 @@ func vC15Dirty(r *rand.Rand, how int) string {
 		}
 		handled, _ := TryPack(m, func([]byte) error { return nil })
 		return fmt.Sprintf("junk(names=%d,handled=%v)", names, handled)
+	case 3: // history: a large message, then a small one — whatever the packer remembers
+		// about a state (sizes, marks, dictionaries) is shaped by the LAST pack, while the
+		// buffer still holds the residue of the one before
+		first := vC15Dirty(r, 1)
+		m := new(dns.Msg)
+		m.Id, m.Response, m.Compress = 0xAAAA, true, r.Intn(2) == 0
+		m.Question = []dns.Question{{Name: "small.example.com.", Qtype: dns.TypeA, Qclass: dns.ClassINET}}
+		if r.Intn(2) == 0 {
+			m.Answer = []dns.RR{&dns.A{Hdr: dns.RR_Header{Name: "small.example.com.", Rrtype: dns.TypeA, Class: dns.ClassINET, Ttl: 60}, A: net.IPv4(192, 0, 2, 1).To4()}}
+		}
+		handled, _ := TryPack(m, func([]byte) error { return nil })
+		return fmt.Sprintf("%s+small(handled=%v)", first, handled)
 	case 2: // arbitrary buffer content under the release invariant
 		st := packStatePool.Get().(*packState)
 		if r.Intn(2) == 0 {
@@ -658,13 +670,13 @@ func TestVerifC15Wire(t *testing.T) {
 	prev := runtime.GOMAXPROCS(1) // one P: the pooled state a pack gets is the one the previous pack put back
 	// regression for the fixed finding stale-a-rdata, deterministically: the reply the blocklist builds for a
 	// blocked A query when nullroute is configured as "::", after any earlier reply
-	for i := 0; i < 2; i++ {
+	for i := 0; i < 6; i++ {
 		m := new(dns.Msg)
 		m.Id, m.Response, m.Authoritative, m.RecursionAvailable = uint16(7+i), true, true, true
 		m.Question = []dns.Question{{Name: "blocked.example.com.", Qtype: dns.TypeA, Qclass: dns.ClassINET}}
 		m.Answer = []dns.RR{&dns.A{Hdr: dns.RR_Header{Name: "blocked.example.com.", Rrtype: dns.TypeA, Class: dns.ClassINET, Ttl: 3600}, A: net.ParseIP("::")}}
-		m.Compress = i == 0
-		vC15Run(tr, r, &vc15gen.VC15Case{Msg: m, Tags: []string{"nullroute-v6"}, Clean: []bool{true}}, 1+i, "regression")
+		m.Compress = i%2 == 0
+		vC15Run(tr, r, &vc15gen.VC15Case{Msg: m, Tags: []string{"nullroute-v6"}, Clean: []bool{true}}, 1+i%3, "regression")
 	}
 	for c := 0; c < n; c++ {
 		var cs *vc15gen.VC15Case
@@ -675,6 +687,11 @@ func TestVerifC15Wire(t *testing.T) {
 		case 8:
 			target := packBufferSize + []int{-2, -1, 0, 0, 1, 2, -12, 11}[r.Intn(8)]
 			cs, kind = vc15gen.VC15Sized(r, target), "sized"
+		case 4:
+			cs = vc15gen.VC15Gen(r, false)
+			if r.Intn(2) == 0 {
+				vc15gen.VC15AddHole(r, cs)
+			}
 		case 5:
 			if r.Intn(2) == 0 {
 				cs, kind = vc15gen.VC15Bare(r), "bare"
@@ -692,7 +709,7 @@ func TestVerifC15Wire(t *testing.T) {
 		default:
 			cs = vc15gen.VC15Gen(r, false)
 		}
-		vC15Run(tr, r, cs, r.Intn(3), kind)
+		vC15Run(tr, r, cs, r.Intn(4), kind)
 	}
 	for c := 0; c < 12+n/25; c++ {
 		vC15Release(tr, r)
